@@ -64,6 +64,9 @@ fn main() {
             writeln!(w, "PANIC").unwrap();
             poisoned = true;
         }
+        // what an op printed is visible at once: the orchestrator tells a blocked step from a slow
+        // one by the time since the last output, and keeps everything printed before a hang
+        w.flush().unwrap();
     }
     w.flush().unwrap();
 }
